@@ -641,7 +641,7 @@ func (f *Frame) applyContract(x ssa.Instruction, con *Contract, fn *ssa.Function
 		for i := 0; i < nres; i++ {
 			if isChanType(sig.Results().At(i).Type()) {
 				if v, ok := x.(ssa.Value); ok {
-					f.registerReturnedChan(v, fn, env.names)
+					f.registerReturnedChan(v, fn, env.names, pre, pre.alloc)
 				}
 			}
 		}
